@@ -24,7 +24,13 @@ pub fn owners(cmd: &Cmd) -> &'static [&'static str] {
         Resize(..) => &["C18", "C05", "C06", "C17", "C16"],
         Decstr => &["C17"],
         DecSet(v) | DecRst(v) => {
-            if v.iter().any(|m| matches!(m, 47 | 1047)) {
+            // (a list that names modes of several owners belongs to all of them)
+            let screens = v.iter().any(|m| matches!(m, 47 | 1047 | 1049));
+            if screens && v.contains(&6) {
+                &["C16", "C17", "C05"]
+            } else if screens && v.contains(&7) {
+                &["C16", "C17", "C04"]
+            } else if v.iter().any(|m| matches!(m, 47 | 1047)) {
                 &["C16"]
             } else if v.contains(&1049) {
                 &["C16", "C17"]
